@@ -54,7 +54,8 @@ def run(tier, seed):
     evals, seen, viol, samples = 0, set(), [], []
     hist_sets = list(itertools.chain.from_iterable(itertools.permutations(range(len(HIST)), k) for k in (0, 1, 2)))
     if tier == "thorough":
-        hist_sets += list(itertools.permutations(range(len(HIST)), 3))
+        triples = list(itertools.permutations(range(len(HIST)), 3))
+        hist_sets += random.Random(seed).sample(triples, 70)          # (a seeded sample of the 210 ordered triples)
     targets = list(TARGETS) + [render(gen_program(rnd, 12), random.Random(rnd.getrandbits(32))) for _ in range(6 if tier == "quick" else 60)]
     for kw in opts(tier):
         for hs in hist_sets:
@@ -115,7 +116,7 @@ def run(tier, seed):
             if not api.same(api.snapshot(a, ignore=TIMER), api.snapshot(b, ignore=TIMER)) and len(viol) < 6:
                 viol.append({"key": "C13:toy-reload", "what": "TOY state after reload differs from a fresh load", "history": list(hs), "text": target})
     return {"evaluations": evals, "distinct_nontrivial": len(seen), "violations": viol, "samples": samples or [{"history": [], "then": ""}],
-            "rule": "load histories: all sequences of <= 2 (thorough: 3) earlier loads from {successful with data, failing late after data was written, data only, empty, syntax error, expanding pseudo + loop} followed by a target program (4 fixed + random grammar-derived), in single-cycle, five-stage and cached configurations, and for TOY; the reloaded simulation and a fresh one are compared by whole-heap snapshot after the load and after running to the end; non-trivial = non-empty history",
+            "rule": "load histories: all sequences of <= 2 (thorough: plus a seeded sample of 70 ordered triples) earlier loads from {successful with data, failing late after data was written, data only, empty, syntax error, expanding pseudo + loop} followed by a target program (4 fixed + random grammar-derived), in single-cycle, five-stage and cached configurations, and for TOY; the reloaded simulation and a fresh one are compared by whole-heap snapshot after the load and after running to the end; non-trivial = non-empty history",
             "bound": "<= 3 earlier loads", "contract": "state(load(P) after history) == state(load(P) on fresh simulation), also after running"}
 
 
